@@ -116,6 +116,15 @@ CHECKS = {
         "un-merged missing values (dropna=False) is not judged.",
         "DESIGN.md §4 C16",
     ),
+    "C19": (
+        "fault-injection PBT: one malformation injected at a generated position into an otherwise valid (verified to "
+        "fit) case, per class; exact exception type; state snapshots around rejected calls on fitted objects",
+        "22 malformation kinds x the classes owning the validation x generated samples/positions/variants; the call "
+        "must raise exactly AssertionError, and on an already fitted object values_orders, the normalised JSON and "
+        "transform(X_train) must be unchanged. Exploration.",
+        "Trusted: the clean case is fitted first so the injected malformation is the only defect of the input.",
+        "DESIGN.md §4 C19",
+    ),
     "C04": (
         "PBT with a reference oracle: table-first generated samples, transform(X_train) compared with the "
         "mapping recomputed from values_orders (list+content) only; metamorphic string-form probe",
